@@ -5,10 +5,13 @@ package run
 
 import (
 	"fmt"
+	"go/ast"
+	"go/parser"
 	"go/token"
 	"os"
 	"sort"
 	"strings"
+	"sync"
 
 	"ggvh/internal/apf"
 
@@ -49,6 +52,52 @@ func Load(dir string, tests bool, patterns ...string) ([]*packages.Package, erro
 		Dir:   dir,
 		Tests: tests,
 		Env:   append(os.Environ(), "GOFLAGS=-mod=mod", "GOPROXY=off", "GOWORK=off"),
+	}
+	if len(patterns) == 0 {
+		patterns = []string{"./..."}
+	}
+	pkgs, err := packages.Load(cfg, patterns...)
+	if err != nil {
+		return nil, err
+	}
+	var errs []string
+	packages.Visit(pkgs, nil, func(p *packages.Package) {
+		for _, e := range p.Errors {
+			errs = append(errs, p.ID+": "+e.Error())
+		}
+	})
+	if len(errs) > 0 {
+		return pkgs, fmt.Errorf("packages do not compile: %s", strings.Join(errs[:min(len(errs), 5)], "; "))
+	}
+	return pkgs, nil
+}
+
+// LoadShifted loads like Load, with the files parsed one at a time into a fresh FileSet in which targetFile gets
+// the base that puts the byte at boundaryOffset of that file on a position that is a multiple of 1<<shiftBits (the
+// kind of layout that arises when unrelated packages were registered in the FileSet before it).
+func LoadShifted(dir string, tests bool, targetFile string, boundaryOffset int, shiftBits uint, patterns ...string) ([]*packages.Package, error) {
+	var mu sync.Mutex
+	cfg := &packages.Config{
+		Mode:  packages.LoadAllSyntax | packages.NeedModule,
+		Dir:   dir,
+		Tests: tests,
+		Fset:  token.NewFileSet(),
+		Env:   append(os.Environ(), "GOFLAGS=-mod=mod", "GOPROXY=off", "GOWORK=off"),
+		ParseFile: func(fset *token.FileSet, filename string, src []byte) (*ast.File, error) {
+			mu.Lock()
+			defer mu.Unlock()
+			if filename == targetFile {
+				page := 1 << shiftBits
+				base := page - boundaryOffset
+				for base < fset.Base() {
+					base += page
+				}
+				if need := base - fset.Base(); need > 1 {
+					fset.AddFile("pad", -1, need-1)
+				}
+			}
+			return parser.ParseFile(fset, filename, src, parser.AllErrors|parser.ParseComments)
+		},
 	}
 	if len(patterns) == 0 {
 		patterns = []string{"./..."}
